@@ -66,11 +66,11 @@ SPEC = {
     'attribute names of the wrapped module avoid the wrapper\'s own fields (module, rngs, _object__state)',
     'variables dicts have no empty sub-dicts and no name that is a variable in one collection and a sub-layer in another (VarsOk; the excluded points are exhibited by theorem name_clash_loses_a_variable and the malformed stream)',
     'no Variable class is registered under two collection names (guard of registry_bijection; register_variable_name does not enforce it: theorem register_alias_breaks_bijection)',
-    'ToLinen: every Variable lands in the bucket of its exact type (sort_variable_types + first-match split are tied by correspondence, not modelled)',
+    'ToLinen type buckets: the class hierarchy enters as MRO lists with the hypothesis that a proper base class has a strictly shorter MRO (HierOk; true of Python MROs)',
     'ToLinen init returns the freshly constructed state, not the state after the first call (as coded)',
   ],
   'model_partial': [
-    'tolinen_refines_nnx_partial: ToLinen is covered by encode/decode characterisations (apply output = call on the decoded state by construction of the model); a history-level simulation like tonnx_refines_linen is not proved for ToLinen; graphdef handling (collection `nnx`) and nnx.split/merge are not modelled',
+    'tolinen_refines_nnx_partial: ToLinen is covered by encode/decode characterisations (apply output = call on the decoded state by construction of the model); a history-level simulation like tonnx_refines_linen is not proved for ToLinen; graphdef handling (collection `nnx`) and nnx.merge are not modelled (the type buckets of nnx.split are: tolinen_exposes_by_exact_type)',
   ],
 }
 
@@ -1398,7 +1398,9 @@ def run_tolinen_case(ctx, spec, hist, placement, seeds, reqs, metas):
           ctx.violation('tolinen-update-lost', f'call {step} (mutable={mutable}): NNX state {cname}/{"/".join(map(str, p))} = {val} after the call, apply returned {g}', c2)
           return
       # model: what _update_variables puts for the new state
-      reqs.append(('encode_state', [reg_json(), True if mutable is True else list(mutable), _state_json(ref)]))
+      hier = [[TT.tok(v.type), [TT.tok(b) for b in v.type.mro() if isinstance(b, type) and issubclass(b, nnx.Variable)]]
+              for _, v in _user_flat(ref)]
+      reqs.append(('encode_state_typed', [reg_json(), True if mutable is True else list(mutable), _state_json(ref), hier]))
       metas.append((c2, 'encode', impl_vars_canon({c: _sub(t, prefix) for c, t in upd.items() if c not in ('nnx', 'RngKey', 'RngCount') and _sub(t, prefix) is not None})))
       caller_vars = deep_merge(caller_vars, upd)
       if muts is not None:
@@ -1483,6 +1485,10 @@ def oracle_linen_exposes(variables, prefix, ref):
     if json.loads(g[1]) != json.loads(md):
       return ('metadata-lost', f'{cname}/{"/".join(map(str, p))}: metadata {g[1]} vs {md}')
   extra = set(got) - seen
+  for c, p in sorted(extra):
+    if tuple(p) in {tuple(q) for q in want}:
+      own = [cn for q, (cn, _, _) in want.items() if tuple(q) == tuple(p)][0]
+      return ('variable-under-base-type-collection', f'{"/".join(map(str, p))} is a Variable of the type named {own} but also appears in collection {c} (a Variable must be exposed under the collection of its exact type only)')
   if extra:
     return ('extra-variable', f'collections hold {sorted(extra)} that the NNX module does not have')
   return None
